@@ -25,8 +25,11 @@ import (
 // (captured from its PeriodicRunner) is the tick. A peer's connection must be closed exactly at the
 // first tick after a full silent period, and the other peer's connection must be unaffected.
 
-func serverScenario(depth int) *mcx.Scenario {
+func serverScenario(depth int, keepAlive uint32) *mcx.Scenario {
 	name := fmt.Sprintf("udp-server inactivity monitor via options, 2 peers, period=%v depth=%d", P, depth)
+	if keepAlive > 0 {
+		name = fmt.Sprintf("udp-server keep-alive(maxRetries=%d) via options, 2 peers, period=%v depth=%d", keepAlive, P, depth)
+	}
 	return &mcx.Scenario{
 		Name:   name,
 		Bounds: mcx.Bounds{Preempt: 0, Env: -1, Select: 0, Delay: 1},
@@ -40,10 +43,30 @@ func serverScenario(depth int) *mcx.Scenario {
 			var u *srvw.UDP
 			vrt.App("env", func() {
 				closedAddr := map[string]int{}
-				mon := options.WithInactivityMonitor(P, func(cc *udpclient.Conn) {
+				onInactive := func(cc *udpclient.Conn) {
 					closedAddr[cc.RemoteAddr().String()]++
 					_ = cc.Close()
-				})
+				}
+				var mon udpserver.Option = options.WithInactivityMonitor(P, onInactive)
+				if keepAlive > 0 {
+					mon = options.WithKeepAlive(keepAlive, P*time.Duration(keepAlive+1), onInactive)
+				}
+				fails := map[string]int{}
+				t0 := vrt.Now()
+				lastPing := map[string]*message.Message{}
+				collectPings := func() map[string]int {
+					n := map[string]int{}
+					for _, o := range u.NewOuts() {
+						m, err := srvw.DecodeUDP(o.Data)
+						if err == nil && m.Code == codes.Empty && m.Type == message.Confirmable {
+							mm := m
+							lastPing[o.To.String()] = &mm
+							n[o.To.String()]++
+							_ = t0
+						}
+					}
+					return n
+				}
 				u = srvw.NewUDP(srvw.UDPOpts{Extra: []udpserver.Option{mon}, Handler: func(w *responsewriter.ResponseWriter[*udpclient.Conn], r *pool.Message) {
 					_ = w.SetResponse(codes.Content, message.TextPlain, nil)
 				}})
@@ -53,6 +76,9 @@ func serverScenario(depth int) *mcx.Scenario {
 				vrt.Quiesce("env: server up")
 				for step := 0; step < depth; step++ {
 					opts := []string{"recv0", "recv1", "tick(P/2)", "tick(P+e)"}
+					if keepAlive > 0 {
+						opts = append(opts, "pong0", "pong1")
+					}
 					e := opts[vrt.Choose(len(opts), nil)]
 					hist = append(hist, e)
 					switch e {
@@ -62,6 +88,22 @@ func serverScenario(depth int) *mcx.Scenario {
 						u.Send(p, srvw.EncodeUDP(message.Message{Type: message.NonConfirmable, Code: codes.GET, MessageID: mid, Token: message.Token{byte(mid)}, Options: message.Options{{ID: message.URIPath, Value: []byte("x")}}}))
 						vrt.Quiesce("env: datagram handled")
 						last[p.String()] = vrt.Now()
+						fails[p.String()] = 0
+						collectPings() // (the server checks a connection for expiry 10 ms ahead when a datagram arrives: a ping may be written then)
+					case "pong0", "pong1":
+						p := peers[int(e[4]-'0')]
+						pg := lastPing[p.String()]
+						if _, live := last[p.String()]; !live || pg == nil {
+							hist[len(hist)-1] = e + "(none)"
+							continue
+						}
+						lastPing[p.String()] = nil
+						u.Send(p, srvw.EncodeUDP(message.Message{Type: message.Reset, Code: codes.Empty, MessageID: pg.MessageID}))
+						vrt.Quiesce("env: pong handled")
+						last[p.String()] = vrt.Now()
+						fails[p.String()] = 0
+						collectPings()
+						lastPing[p.String()] = nil
 					default:
 						d := P / 2
 						if e == "tick(P+e)" {
@@ -78,11 +120,28 @@ func serverScenario(depth int) *mcx.Scenario {
 						}
 						u.Tick(vrt.Now())
 						vrt.Quiesce("env: tick handled")
+						newPings := collectPings()
 						for _, p := range peers {
 							k := p.String()
 							t, live := last[k]
 							closedNow := closedAddr[k] > before[k]
 							due := live && vrt.Now().After(t.Add(P))
+							if keepAlive > 0 {
+								// a firing tick is an uncredited detection; closed only when more than maxRetries of this peer's own accumulated
+								if due {
+									fails[k]++
+									due = fails[k] > int(keepAlive)
+									if !due && !closedNow && newPings[k] != 1 {
+										fail("server/keepalive-ping-count", "%d pings were written to %s at an inactivity detection of its connection", newPings[k], k)
+									}
+								}
+								if closedNow && !due {
+									fail("server/keepalive-closed-early", "connection of %s closed after %d consecutive unanswered rounds of its own (maxRetries=%d)", k, fails[k], keepAlive)
+									delete(last, k)
+									delete(fails, k)
+									continue
+								}
+							}
 							switch {
 							case closedNow && !due:
 								fail("server/closed-without-full-silent-period", "connection of %s closed although its last datagram is %v old (live=%v)", k, vrt.Now().Sub(t), live)
@@ -91,6 +150,8 @@ func serverScenario(depth int) *mcx.Scenario {
 							}
 							if closedNow {
 								delete(last, k)
+								delete(fails, k)
+								lastPing[k] = nil
 							}
 						}
 					}
@@ -109,5 +170,6 @@ func serverScenario(depth int) *mcx.Scenario {
 }
 
 func addServerLevel(r *ev.Run, scs *[]*mcx.Scenario) {
-	*scs = append(*scs, serverScenario(ev.Pick(r, 5, 6)))
+	*scs = append(*scs, serverScenario(ev.Pick(r, 5, 6), 0))
+	*scs = append(*scs, serverScenario(ev.Pick(r, 5, 7), 2))
 }
